@@ -231,7 +231,7 @@ TSched ==
   /\ Ev.act \in {"JobStart", "JobEnd", "Purge"} /\ dr' = dr
   /\ IF Ev.j \notin JobIds THEN Stuck("C00_schedule_inapplicable")
      ELSE \/ Ev.act = "JobStart" /\ IF CanStart(Ev.j) THEN JobStart(Ev.j) /\ Judge({}) ELSE Stuck("C00_schedule_inapplicable")
-          \/ Ev.act = "JobEnd" /\ IF jobs[Ev.j].st = "R" THEN JobEnd(Ev.j, Ev.ok) /\ Judge({}) ELSE Stuck("C00_schedule_inapplicable")
+          \/ Ev.act = "JobEnd" /\ IF jobs[Ev.j].st = "R" THEN JobEnd(Ev.j, Ev.ok, Ev.tie) /\ Judge({}) ELSE Stuck("C00_schedule_inapplicable")
           \/ Ev.act = "Purge" /\ IF Finished(Ev.j) /\ ~jobs[Ev.j].gone THEN Purge(Ev.j) /\ Judge({}) ELSE Stuck("C00_schedule_inapplicable")
 
 TraceNext ==
